@@ -432,6 +432,8 @@ def run(pid, spec, a, seed, scratch, t0):
                 inconclusive.append("%s: %d feasibility queries unknown" % (h, res["unknown_feasibility"]))
             if res["truncated"]:
                 inconclusive.append("%s: exploration truncated" % h)
+            if res["path_ends"].get("unwind-bound"):
+                inconclusive.append("%s: %d paths abandoned at the unwinding bound on goroutine-spawning loops (more than 24 workers before a join)" % (h, res["path_ends"]["unwind-bound"]))
             if res["path_ends"].get("completed", 0) + res["path_ends"].get("cut", 0) + res["path_ends"].get("exit", 0) == 0 and not res["counterexamples"]:
                 inconclusive.append("%s: vacuous - no path reaches the end of the harness" % h)
             for want in job.get("must_reach", []):
